@@ -351,9 +351,20 @@ fn run_history(out: &mut dyn Write, line: &str) {
                 (0..callers).map(|i| (i * per).min(hist.len())..((i + 1) * per).min(hist.len())).filter(|r| !r.is_empty()).collect();
             std::thread::scope(|scope| {
                 if concurrent {
+                    // the callers leave a spin rendezvous together, so that their first broadcasts hit the pool at the same moment
+                    static READY: std::sync::atomic::AtomicUsize = std::sync::atomic::AtomicUsize::new(0);
+                    READY.store(0, SeqCst);
+                    let ready = &READY;
+                    let total = segments.len();
                     for seg in segments {
                         let f = &run_segment;
-                        scope.spawn(move || f(seg));
+                        scope.spawn(move || {
+                            ready.fetch_add(1, SeqCst);
+                            while ready.load(SeqCst) < total {
+                                std::hint::spin_loop();
+                            }
+                            f(seg)
+                        });
                     }
                 } else {
                     for seg in segments {
